@@ -38,6 +38,10 @@ func runC02Followup(c *Ctx, w *ATWorld) {
 				w.coord.Script = func(s *FakeSession, kind string, m message.RpcMessage) Action {
 					if b, ok := m.Body.(message.BranchRegisterRequest); ok && b.BranchType == branch.BranchTypeAT && refuse {
 						refuse = false // the first registration only
+						if n%2 == 0 {
+							// (no registration either: the request is answered with a message of another type)
+							return Action{Body: message.GlobalBeginResponse{AbstractTransactionResponse: okHead(), Xid: "not-a-register-response"}}
+						}
 						return Action{Body: message.BranchRegisterResponse{AbstractTransactionResponse: failHead("refused")}}
 					}
 					return Action{}
@@ -57,11 +61,14 @@ func runC02Followup(c *Ctx, w *ATWorld) {
 				var xid string
 				crash := safeCall(func() {
 					xid, _ = InGlobalTx(cid, func(ctx context.Context) error {
+						// (nothing here may wait for ever: a connection an earlier case wedged is that case's finding)
+						ctx, stop := context.WithTimeout(ctx, 20*time.Second)
+						defer stop()
 						conn, cerr := w.DB.Conn(ctx)
 						if cerr != nil {
 							panic(cerr)
 						}
-						defer conn.Close()
+						defer closeSoon(conn)
 						run := func(k int, explicit bool) {
 							q := "UPDATE " + table + " SET n = 7 WHERE id = ?"
 							if explicit {
